@@ -97,8 +97,10 @@ class Setup:
         base = gen.rand_meshspec(rng, nd=nd, n_max=2, scale_decades=(-9, 3))
         # keep the offset measured in edge lengths; integer corners stay integers
         pmin = base.pmin if base.int_corners else base.pmin / base.n * n
+        # (integer corners only where the edges n * cell are whole numbers)
+        int_c = bool(base.int_corners and all(float(c * k).is_integer() for c, k in zip(base.cell, n)))
         self.spec = spec = gen.MeshSpec(pmin, base.cell, n, base.dims, base.units,
-                                        base.flip, base.int_corners)
+                                        base.flip, int_c)
         if spec.units is None and rng.random() < 0.5:
             spec.units = ["u0", "u1", "u2", "u3"][:nd]
         self.n = tuple(int(k) for k in n)
